@@ -82,8 +82,16 @@ func init() {
 		st.assume(Implies(And(Ge(x, IntLit(0)), Ge(y, IntLit(0))), And(Ge(r, IntLit(0)), Le(r, x), Le(r, y))))
 		return r
 	})
-	deps[B+"Or"] = bigBin("z.Or(x,y): uninterpreted", func(ex *Exec, st *State, c *ssa.Call, x, y Term) Term {
-		return App(SInt, "f_bigor", x, y)
+	deps[B+"Or"] = bigBin("z.Or(x,y): val(z)=bigor(val x,val y); for non-negative operands max(x,y) <= z <= x+y, and z = x+y when one operand is a multiple of 2^k and the other is below 2^k (k<=16: disjoint bit ranges); otherwise uninterpreted", func(ex *Exec, st *State, c *ssa.Call, x, y Term) Term {
+		r := ex.define(st, "big", App(SInt, "f_bigor", x, y))
+		nn := And(Ge(x, IntLit(0)), Ge(y, IntLit(0)))
+		st.assume(Implies(nn, And(Ge(r, x), Ge(r, y), Le(r, Add(x, y)))))
+		for k := 1; k <= 16; k++ {
+			pk := Pow2Lit(k)
+			st.assume(Implies(And(nn, Eq(App(SInt, "mod", x, pk), IntLit(0)), Lt(y, pk)), Eq(r, Add(x, y))))
+			st.assume(Implies(And(nn, Eq(App(SInt, "mod", y, pk), IntLit(0)), Lt(x, pk)), Eq(r, Add(x, y))))
+		}
+		return r
 	})
 	shift := func(fn string, doc string) *depHandler {
 		return &depHandler{[]string{"BigVal"}, doc, func(ex *Exec, st *State, c *ssa.Call, a []SV) SV {
